@@ -34,8 +34,14 @@ OVERRIDING = {'id', 'hom', 'diag', 'hwp', 'rot', 'toeplitz', 'toast', 'add', 'su
 
 
 def strategy(tier, mode):
+    from .c08 import borderline_case
+
     cap = 20 if tier == 'quick' else 36
-    return gen.expression_case(mode, cap=cap, max_len=5, depth=2)
+    e = gen.expression_case(mode, cap=cap, max_len=5, depth=2)
+    # constructions the library normally refuses (a strict diagonal whose broadcasting would change a leaf shape, a
+    # non-square observation matrix): refusing is fine; if one is accepted, what it declares must still be what mv returns
+    b = borderline_case(mode)
+    return st.integers(0, 11).flatmap(lambda i: b if i == 0 else e)
 
 
 def _actual_matches(S, value, key, what):
@@ -68,7 +74,34 @@ def _check_one(op, in_S, out_S, key, probe):
             raise Violation(key + ':' + name, f'{got} != {want}')
 
 
+def _check_borderline(case):
+    import jax
+    import jax.numpy as jnp
+
+    what = case['special']
+    try:
+        if what == 'diag_unit_axis':
+            from furax._base.diagonal import DiagonalOperator
+
+            op = DiagonalOperator(jnp.asarray(case['vals'], jnp.float32), axis_destination=case['axis'],
+                                  in_structure=St.to_jax(case['S']))
+        else:
+            op = ops.build_toast({'in': {'dtype': 'float32'}, 'matrix': case['matrix']})
+    except Exception as e:  # noqa: BLE001  (refusing such a construction is the normal behaviour)
+        return {'nontrivial': False, 'classes': ['borderline:' + what, 'refused:' + type(e).__name__]}
+    ins = must_not_raise('borderline:in_structure', op.in_structure)
+    outs = must_not_raise('borderline:out_structure', op.out_structure)
+    x = jax.tree.map(lambda l: jnp.ones(l.shape, l.dtype), ins)
+    y = must_not_raise('borderline:mv', op.mv, x)
+    got = jax.tree.map(lambda l: jax.ShapeDtypeStruct(l.shape, l.dtype), y)
+    if jax.tree.structure(got) != jax.tree.structure(outs) or jax.tree.leaves(got) != jax.tree.leaves(outs):
+        raise Violation('borderline:mv-structure', f'{type(op).__name__} ({what}) declares {St.describe(outs)} but mv returns {St.describe(y)}')
+    return {'nontrivial': True, 'classes': ['borderline:' + what, 'accepted']}
+
+
 def check(case, mode):
+    if 'special' in case:
+        return _check_borderline(case)
     defs = case.get('defs', [])
     den = ops.denote_case(case)
     op = must_not_raise('build', ops.build_case, case)
